@@ -539,11 +539,10 @@ Proof.
 Qed.
 
 Lemma addAuth_ever now u h u' h2 :
-  addAuth now u h = Ok u' -> recog_ever u' h2 = recog_ever u h2 || seq_eqb h2 h.
+  addAuth now u h = Ok u' -> seq_eqb h2 h = false -> recog_ever u' h2 = recog_ever u h2.
 Proof.
-  intro H. apply addAuth_shape in H. subst u'. unfold recog_ever, mask_match. cbn [u_auth u_masks].
-  rewrite dedupe_masks, existsb_app. cbn [existsb snd]. rewrite orb_false_r.
-  destruct (existsb (fun e => seq_eqb h2 (snd e)) (u_auth u)), (seq_eqb h2 h), (existsb (fun p => hmatch p h2) (u_masks u)); reflexivity.
+  intros H Hne. apply addAuth_shape in H. subst u'. unfold recog_ever, mask_match. cbn [u_auth u_masks u_secure].
+  rewrite dedupe_masks, existsb_app. cbn [existsb snd]. rewrite Hne, !orb_false_r. reflexivity.
 Qed.
 
 Lemma addAuth_mask now u h u' h2 : addAuth now u h = Ok u' -> mask_match u' h2 = mask_match u h2.
@@ -567,8 +566,8 @@ Proof.
   destruct (addAuth now u h) as [u'|e] eqn:Ea; [|split; assumption].
   rewrite uset_nset.
   assert (Hne : forall h2, ~ In h2 (auth_masks u') -> recog_ever u' h2 = recog_ever u h2).
-  { intros h2 Hni. rewrite (addAuth_ever _ _ _ _ _ Ea).
-    destruct (seq_eqb h2 h) eqn:E; [|apply orb_false_r].
+  { intros h2 Hni. apply (addAuth_ever _ _ _ _ _ Ea).
+    destruct (seq_eqb h2 h) eqn:E; [|reflexivity].
     apply seq_eqb_eq in E. subst h2. exfalso. apply Hni. eapply addAuth_login. exact Ea. }
   apply set_gen; cbn [with_users s_users s_hcache s_next].
   - apply NoDup_nset. exact Hnd.
@@ -646,7 +645,7 @@ Proof.
   destruct (invalidate_fold_ok (u_auth u) s HC) as [s1 [Hf [Hu1 [Hn1 [Hsub [Hnone HC1]]]]]].
   rewrite Hf. cbn [fst]. rewrite uset_nset, Hu1.
   assert (Hp : pruned (s_users s) (nset id (User (u_name u) (u_masks u) [] (u_secure u)) (s_users s))).
-  { apply (pruned_nset _ _ u); [exact Eu|]. intros h. unfold recog_ever, mask_match. cbn [u_auth u_masks existsb orb].
+  { apply (pruned_nset _ _ u); [exact Eu|]. intros h. unfold recog_ever, mask_match. cbn [u_auth u_masks u_secure existsb andb orb].
     intro H. rewrite H. apply orb_true_r. }
   split.
   - apply (Inv_sub s); [exact HI|exact Hp|apply CacheInv_users; exact HC1|exact Hsub].
@@ -729,7 +728,7 @@ Lemma lookup_cases t now s h :
 Proof.
   unfold getUserId. destruct (dict_get h (s_hcache s)) as [id|] eqn:Eg; [|right; exists s; auto].
   rewrite uget_nget. destruct (nget id (s_users s)) as [u|] eqn:Eu; [|right; exists s; auto].
-  pose proof (checkHostmask_truthy false t now u h) as Ht. cbv iota in Ht.
+  pose proof (checkHostmask_truthy t now u h) as Ht.
   pose proof (checkHostmask_recog false t now u h true h) as Hr.
   destruct (checkHostmask false t now u h true) as [u' x]. cbn [fst snd] in Ht, Hr.
   cbv zeta. rewrite uset_nset.
